@@ -78,6 +78,14 @@ def set_of_items(ex, items):
         ar = len(items[0].items)
         tss = [[j.t for j in i.items] for i in items]
         return VSet(lambda *xs: L.Or(*[L.And(*[x == t for x, t in zip(xs, ts)]) for ts in tss]), arity=ar)
+    if len(items) == 1 and isinstance(items[0], VSet) and items[0].arity == 1:
+        # {frozenset(S)}: a family with the single member S, indexed by one of its elements (the empty member is not representable)
+        S = items[0]
+        if not ex.branch(L.exists(1, lambda x: S.has(x))):
+            raise OutOfSubset("family with an empty member")
+        c = z3.Const(L.fresh_name("rep"), L.Node)
+        ex.assume(S.has(c))
+        return VFam(lambda r: r == c, lambda r, x: S.has(x))
     raise OutOfSubset("set display of non-node items")
 
 
@@ -537,6 +545,11 @@ def equal(ex, l, r):
         if len(l.items) != len(r.items):
             return L.F()
         return L.And(*[equal(ex, a, b) for a, b in zip(l.items, r.items)])
+    if isinstance(l, VFam) and isinstance(r, VFam):
+        # equality of two sets of frozensets: every member of one is a member of the other
+        same = lambda fa, a, fb, b: L.forall(1, lambda x: fa.mem(a, x) == fb.mem(b, x))
+        return L.And(L.forall(1, lambda p: L.Implies(l.idx(p), L.exists(1, lambda q: L.And(r.idx(q), same(l, p, r, q))))),
+                     L.forall(1, lambda q: L.Implies(r.idx(q), L.exists(1, lambda p: L.And(l.idx(p), same(l, p, r, q))))))
     if isinstance(l, VInt) and isinstance(r, VSet) or isinstance(l, VSet) and isinstance(r, VInt):
         raise OutOfSubset("int/set comparison")
     raise OutOfSubset(f"equality of {type(l).__name__} and {type(r).__name__}")
